@@ -101,6 +101,7 @@ Record rcase := RC {
                                                  here), the handler set carrying the scripts installed for this case *)
   rc_parts : option (bytes * bytes * bytes);  (* (type, resource, method) the subject was built from; None = malformed on purpose *)
   rc_msg : msg;                               (* subject, reply subject, payload as sent (decoded form = the generator's fields) *)
+  rc_json : bool;                             (* independent judgement on the exact payload bytes sent: empty, or json.Valid *)
   rc_conc : bool;                             (* concurrent case (load round / overlapping pair): of the published messages only
                                                  those on the reply subject were collected; the handler observations are
                                                  those recorded under the request's own resource name *)
@@ -118,7 +119,8 @@ Definition parts_eqb (a b : option (bytes * bytes * bytes)) : bool :=
   opt_eqb (fun x y => beq (fst (fst x)) (fst (fst y)) && beq (snd (fst x)) (snd (fst y)) && beq (snd x) (snd y)) a b.
 Definition on_subject (r : bytes) (ms : list pubmsg) : list pubmsg := filter (fun m => beq (p_subj m) r) ms.
 
-(* field codes: 1 published messages  2 handler observations  3 processed-or-not  4 subject split *)
+(* field codes: 1 published messages  2 handler observations  3 processed-or-not  4 subject split
+   5 the payload is not valid JSON, yet the case hands the model a decoded payload (harness inconsistency) *)
 Definition check_case (c : rcase) : list N :=
   let s := snd (handle_request (case_cfg c) (rc_msg c)) in
   let sp := split_subject (ms_subj (rc_msg c)) in
@@ -128,7 +130,8 @@ Definition check_case (c : rcase) : list N :=
    else (if list_eqb pub_eqb (pubs s) (g_pubs c) then [] else [1])) ++
   (if list_eqb lentry_eqb (log s) (g_log c) then [] else [2]) ++
   (if Bool.eqb processed (g_done c) then [] else [3]) ++
-  (if parts_eqb sp (rc_parts c) then [] else [4]).
+  (if parts_eqb sp (rc_parts c) then [] else [4]) ++
+  (if negb (rc_json c) && isSome (decoded (ms_data (rc_msg c))) then [5] else []).
 
 (* property C04 on the implementation's outputs only.
    codes: 1 number of responses (pre-responses aside) on the reply subject is not the expected 1 / 0
